@@ -104,7 +104,7 @@ impl<'a> DocGen<'a> {
                     s.push_str(&format!("{ind}let {v} = {}\n", self.int_expr(vars)));
                     vars.push(v);
                 }
-                2 => s.push_str(&format!("{ind}check {}\n", self.bool_expr(vars))),
+                2 => s.push_str(&format!("{ind}check {} else todo()\n", self.bool_expr(vars))),
                 3 | 4 if depth > 0 => {
                     let ind2 = format!("{ind}    ");
                     s.push_str(&format!("{ind}if {} {{\n", self.bool_expr(vars)));
@@ -174,7 +174,7 @@ impl<'a> DocGen<'a> {
             // straight-line policy block: always reaches finish
             let mut vars: Vec<String> = vec![];
             if self.rng.chance(1, 2) {
-                s.push_str(&format!("        check {}\n", self.bool_expr(&vars)));
+                s.push_str(&format!("        check {} else todo()\n", self.bool_expr(&vars)));
             }
             s.push_str(&self.terminal(Ctx::Policy, &mut vars, "        "));
         } else {
@@ -236,7 +236,7 @@ fn break_compile(rng: &mut Rng, src: &str) -> String {
         3 => format!("{src}\nfunction dup(n int) int {{\n    return 1\n}}\nfunction dup(n int) int {{\n    return 2\n}}\n"),
         4 => format!("{src}\naction pub_unknown() {{\n    publish Bar {{ a: 1 }}\n}}\n"),
         5 => format!("{src}\nfunction bad_let(n int) int {{\n    let n = 3\n    return n\n}}\n"),
-        _ => format!("{src}\nfunction bad_check(n int) int {{\n    check n\n    return n\n}}\n"),
+        _ => format!("{src}\nfunction bad_check(n int) int {{\n    check n else todo()\n    return n\n}}\n"),
     }
 }
 
@@ -336,13 +336,11 @@ fn library_verdict(doc: &str, stub: bool) -> Result<Verdict, String> {
 struct Env {
     bin: PathBuf,
     dir: PathBuf,
-    n: u64,
 }
 
 /// returns (exit code as text, wrote)
-fn run_binary(env: &mut Env, doc: Option<&str>, f: Flags) -> (String, bool) {
-    env.n += 1;
-    let d = env.dir.join(format!("r{}", env.n));
+fn run_binary(env: &Env, id: usize, doc: Option<&str>, f: Flags) -> (String, bool) {
+    let d = env.dir.join(format!("r{id}"));
     let _ = fs::remove_dir_all(&d);
     fs::create_dir_all(&d).unwrap();
     let input = d.join("policy.md");
@@ -390,24 +388,69 @@ fn b(x: bool) -> u8 {
     x as u8
 }
 
-fn run_one(rec: &mut Recorder, env: &mut Env, doc: Option<&str>, f: Flags, class: &str) {
-    let v = match doc {
-        Some(d) if f.read => match library_verdict(d, f.stub) {
-            Ok(v) => v,
-            Err(msg) => {
-                // a front-end panic is C27's business (not applicable); the binary cannot exit 0 then
-                rec.count("library-front-end-panic");
-                rec.notes.push(format!("library panicked in-process on a generated document: {msg}"));
-                let (code, wrote) = run_binary(env, doc, f);
-                if code == "0" {
-                    rec.oracle_fail(format!("library panics in-process ({msg}) but the binary exits 0 (wrote={wrote})"));
-                }
-                return;
-            }
-        },
-        _ => Verdict { parse: false, compile: false, vret: false },
+struct Case {
+    doc: Option<String>,
+    flags: Vec<Flags>,
+    class: &'static str,
+}
+
+/// what one invocation produced: the library's in-process verdict (Err = it panicked) and the
+/// real binary's (exit code, wrote)
+struct RunResult {
+    verdict: Result<Verdict, String>,
+    code: String,
+    wrote: bool,
+}
+
+fn compute_one(env: &Env, id: usize, doc: Option<&str>, f: Flags) -> RunResult {
+    let verdict = match doc {
+        Some(d) if f.read => library_verdict(d, f.stub),
+        _ => Ok(Verdict { parse: false, compile: false, vret: false }),
     };
-    let (code, wrote) = run_binary(env, doc, f);
+    let (code, wrote) = run_binary(env, id, doc, f);
+    RunResult { verdict, code, wrote }
+}
+
+/// run all invocations of all cases on a few worker threads (process spawns dominate)
+fn compute_all(env: &Env, cases: &[Case]) -> Vec<Vec<RunResult>> {
+    let jobs: Vec<(usize, usize)> = cases.iter().enumerate().flat_map(|(i, c)| (0..c.flags.len()).map(move |j| (i, j))).collect();
+    let next = std::sync::atomic::AtomicUsize::new(0);
+    let results: Vec<std::sync::Mutex<Option<RunResult>>> = jobs.iter().map(|_| std::sync::Mutex::new(None)).collect();
+    let workers = std::thread::available_parallelism().map(|n| n.get()).unwrap_or(4).clamp(2, 8);
+    std::thread::scope(|s| {
+        for _ in 0..workers {
+            s.spawn(|| loop {
+                let k = next.fetch_add(1, std::sync::atomic::Ordering::SeqCst);
+                if k >= jobs.len() {
+                    break;
+                }
+                let (i, j) = jobs[k];
+                let r = compute_one(env, k, cases[i].doc.as_deref(), cases[i].flags[j]);
+                *results[k].lock().unwrap() = Some(r);
+            });
+        }
+    });
+    let mut out: Vec<Vec<RunResult>> = cases.iter().map(|_| vec![]).collect();
+    for (k, (i, _)) in jobs.iter().enumerate() {
+        out[*i].push(results[k].lock().unwrap().take().expect("job result"));
+    }
+    out
+}
+
+fn record_one(rec: &mut Recorder, doc: Option<&str>, f: Flags, class: &str, r: RunResult) {
+    let RunResult { verdict, code, wrote } = r;
+    let v = match verdict {
+        Ok(v) => v,
+        Err(msg) => {
+            // a front-end panic is C27's business (not applicable); the binary cannot exit 0 then
+            rec.count("library-front-end-panic");
+            rec.notes.push(format!("library panicked in-process on a generated document: {msg}"));
+            if code == "0" {
+                rec.oracle_fail(format!("library panics in-process ({msg}) but the binary exits 0 (wrote={wrote})"));
+            }
+            return;
+        }
+    };
     let req = format!(
         "cli {} {} {} {} {} {} {}",
         b(f.read), b(v.parse), b(v.compile), b(v.vret), b(f.noval), b(f.stub), b(f.create)
@@ -460,14 +503,14 @@ fn run_one(rec: &mut Recorder, env: &mut Env, doc: Option<&str>, f: Flags, class
     }
 }
 
-fn run_case(rec: &mut Recorder, env: &mut Env, doc: Option<&str>, flags: &[Flags], class: &str) {
+fn record_case(rec: &mut Recorder, c: &Case, results: Vec<RunResult>) {
     rec.begin_case();
-    match doc {
+    match &c.doc {
         Some(d) => rec.line(format!("doc {}", vh::hex(d.as_bytes())), "ok"),
         None => rec.line("nofile", "ok"),
     }
-    for f in flags {
-        run_one(rec, env, doc, *f, class);
+    for (f, r) in c.flags.iter().zip(results) {
+        record_one(rec, c.doc.as_deref(), *f, c.class, r);
     }
 }
 
@@ -496,84 +539,77 @@ fn main() {
     let dir = scratch.join(format!("c31-{}", std::process::id()));
     let _ = fs::remove_dir_all(&dir);
     fs::create_dir_all(&dir).unwrap();
-    let mut env = Env { bin: build_cli(), dir: dir.clone(), n: 0 };
+    let env = Env { bin: build_cli(), dir: dir.clone() };
+    let mut cases: Vec<Case> = vec![];
 
     if let Some(rp) = &args.replay {
         // request lines: `doc <hex>` / `nofile` start a case; `cli …` lines carry the flags
         // (verdict bits are recomputed from the document).
-        let lines = vh::read_replay_input(rp);
-        let mut doc: Option<String> = None;
-        let mut started = false;
-        for l in lines {
+        for l in vh::read_replay_input(rp) {
             let t: Vec<&str> = l.split(' ').collect();
             match t[0] {
                 "doc" if t.len() == 2 => {
                     let bytes = vh::unhex(t[1]).expect("replay: bad hex");
-                    doc = Some(String::from_utf8(bytes).expect("replay: document is not UTF-8"));
-                    rec.begin_case();
-                    rec.line(l.clone(), "ok");
-                    started = true;
+                    let doc = String::from_utf8(bytes).expect("replay: document is not UTF-8");
+                    cases.push(Case { doc: Some(doc), flags: vec![], class: "replay" });
                 }
-                "nofile" => {
-                    doc = None;
-                    rec.begin_case();
-                    rec.line(l.clone(), "ok");
-                    started = true;
-                }
-                "cli" if t.len() == 8 && started => {
+                "nofile" => cases.push(Case { doc: None, flags: vec![], class: "replay" }),
+                "cli" if t.len() == 8 && !cases.is_empty() => {
                     let bit = |i: usize| t[i] == "1";
-                    let f = Flags { read: bit(1) && doc.is_some(), noval: bit(5), stub: bit(6), create: bit(7), explicit_out: false };
-                    run_one(&mut rec, &mut env, doc.as_deref(), f, "replay");
+                    let c = cases.last_mut().unwrap();
+                    c.flags.push(Flags { read: bit(1) && c.doc.is_some(), noval: bit(5), stub: bit(6), create: bit(7), explicit_out: false });
                 }
                 _ => rec.notes.push(format!("replay: ignored line `{}`", &l[..l.len().min(40)])),
             }
         }
-        let _ = fs::remove_dir_all(&dir);
-        rec.finish(args.seed, &args.tier);
-        return;
+    } else {
+        let mut rng = Rng::new(args.seed);
+        let n = args.budget(200, 2500);
+        for _ in 0..n {
+            let mut r = rng.fork();
+            let class = match r.below(10) {
+                0 | 1 | 2 => "valid",
+                3 | 4 | 5 => "sloppy",
+                6 => "uncompilable",
+                7 => "unparsable",
+                8 => "mutated",
+                _ => "special",
+            };
+            let sloppy = class == "sloppy" || (class != "valid" && r.chance(1, 3));
+            let src = DocGen { rng: &mut r, var: 0 }.policy(sloppy);
+            let flags = flag_set(&mut r);
+            let doc: Option<String> = match class {
+                "valid" | "sloppy" => Some(wrap_doc(&mut r, &src)),
+                "uncompilable" => {
+                    let s = break_compile(&mut r, &src);
+                    Some(wrap_doc(&mut r, &s))
+                }
+                "unparsable" => {
+                    let d = wrap_doc(&mut r, &src);
+                    Some(break_parse(&mut r, &d))
+                }
+                "mutated" => {
+                    let d = wrap_doc(&mut r, &src);
+                    Some(mutate(&mut r, &d))
+                }
+                _ => match r.below(4) {
+                    0 => None,
+                    1 => Some(String::from_utf8_lossy(&r.bytes(64)).into_owned()),
+                    2 => Some("---\npolicy-version: 2\n---\n\n```policy\n```\n".to_string()),
+                    _ => Some("---\npolicy-version: 2\n---\n\nno code at all\n".to_string()),
+                },
+            };
+            let flags: Vec<Flags> = if doc.is_none() { flags.into_iter().map(|f| Flags { read: false, ..f }).collect() } else { flags };
+            cases.push(Case { doc, flags, class });
+        }
     }
 
-    let mut rng = Rng::new(args.seed);
-    let cases = args.budget(260, 3000);
-    for i in 0..cases {
-        let mut r = rng.fork();
-        let class = match r.below(10) {
-            0 | 1 | 2 => "valid",
-            3 | 4 | 5 => "sloppy",
-            6 => "uncompilable",
-            7 => "unparsable",
-            8 => "mutated",
-            _ => "special",
-        };
-        let sloppy = class == "sloppy" || (class != "valid" && r.chance(1, 3));
-        let src = DocGen { rng: &mut r, var: 0 }.policy(sloppy);
-        let flags = flag_set(&mut r);
-        let doc: Option<String> = match class {
-            "valid" | "sloppy" => Some(wrap_doc(&mut r, &src)),
-            "uncompilable" => {
-                let s = break_compile(&mut r, &src);
-                Some(wrap_doc(&mut r, &s))
-            }
-            "unparsable" => {
-                let d = wrap_doc(&mut r, &src);
-                Some(break_parse(&mut r, &d))
-            }
-            "mutated" => {
-                let d = wrap_doc(&mut r, &src);
-                Some(mutate(&mut r, &d))
-            }
-            _ => match r.below(4) {
-                0 => None,
-                1 => Some(String::from_utf8_lossy(&r.bytes(64)).into_owned()),
-                2 => Some("---\npolicy-version: 2\n---\n\n```policy\n```\n".to_string()),
-                _ => Some("---\npolicy-version: 2\n---\n\nno code at all\n".to_string()),
-            },
-        };
-        let flags: Vec<Flags> = if doc.is_none() { flags.into_iter().map(|f| Flags { read: false, ..f }).collect() } else { flags };
-        run_case(&mut rec, &mut env, doc.as_deref(), &flags, class);
-        if i < 3 {
-            if let Some(d) = &doc {
-                rec.sample(format!("[{class}] {}", d.replace('\n', "\\n")));
+    let results = compute_all(&env, &cases);
+    for (i, (c, r)) in cases.iter().zip(results).enumerate() {
+        record_case(&mut rec, c, r);
+        if i < 3 && args.replay.is_none() {
+            if let Some(d) = &c.doc {
+                rec.sample(format!("[{}] {}", c.class, d.replace('\n', "\\n")));
             }
         }
     }
